@@ -2077,7 +2077,16 @@ impl Zeroconf {
         for (_, service_info) in self.my_services.iter_mut() {
             if service_info.is_addr_auto() {
                 service_info.insert_ipaddr(&intf);
+            }
 
+            // A service with fixed addresses joins the new address as well when one
+            // of them is in its subnet.
+            if service_info.is_addr_auto()
+                || service_info
+                    .get_addresses()
+                    .iter()
+                    .any(|a| valid_ip_on_intf(a, &intf.addr))
+            {
                 if let Ok(true) = announce_service_on_intf(
                     dns_registry,
                     service_info,
